@@ -99,6 +99,10 @@ def decorate(rng, doc, draft):
             k0, v0 = rng.choice(o.kvs)
             if not k0.isalpha() or k0 in ("title", "description", "format") or any(kk.lower() == k0.lower() and kk != k0 for kk in o.keys()):
                 continue
+            if k0 in ("type", "items", "dependencies"):
+                # the union keywords travel through one json.RawMessage shadow field: the later spelling replaces the earlier one
+                # wholesale (string form vs array form), which the model's per-form assignment does not reproduce
+                continue
             kv = rng.choice([k0.capitalize(), k0.upper(), k0[0] + k0[1:].swapcase()])
             if kv == k0:
                 continue
@@ -119,6 +123,8 @@ def decorate(rng, doc, draft):
             folded = True
         else:
             k = rng.choice(CASEFOLD)
+            if k.lower() in ("type", "items", "dependencies") and any(kk.lower() == k.lower() for kk in o.keys()):
+                continue
             if o.get(k) is None:
                 v = {"Type": "string", "MINIMUM": Num("5"), "Properties": Obj([("a", False)]), "Required": ["zz"], "ENUM": [],
                      "Const": Num("424242"), "maxlength": Num("0"), "additionalproperties": False, "$REF": "#/nosuch", "Not": Obj(),
